@@ -164,24 +164,26 @@ type Decl struct {
 
 // World is one generated module.
 type World struct {
-	Decls     []*Decl
-	Calls     []*Call
-	QCalls    []*Call // calls in package q (uses types of p through import)
-	QDecls    []*Decl
-	HasQ      bool
-	HasExt    bool
-	NFiles    int      // source files of p (non-test): 1..3
-	Unfmt     []bool   // per file: deliberately not gofmt-formatted
-	LineDir   []string // per file: //line directive before the package clause ("" = none)
-	UserFuncs []UserFunc
-	Prefix    map[string]string // plugin -> prefix (nil = default "derive" + Plugin name)
-	GlobalPfx string            // -prefix value ("" = derive)
-	Flags     []string          // goderive flags
-	Negative  string            // description of the spliced unsupported constituent (C09)
-	RawFiles  map[string]string // extra verbatim files (relative path -> content)
-	PName     string            // package name of p ("" = p); the directory and import path stay .../p
-	PrefixRot int               // rotation of the -pluginprefix pairs on the command line
-	Twin      int               // > 0: a second generated-for package twin/p with p's package name and type names (variant)
+	Decls       []*Decl
+	Calls       []*Call
+	QCalls      []*Call // calls in package q (uses types of p through import)
+	QDecls      []*Decl
+	HasQ        bool
+	HasExt      bool
+	NFiles      int      // source files of p (non-test): 1..3
+	Unfmt       []bool   // per file: deliberately not gofmt-formatted
+	LineDir     []string // per file: //line directive before the package clause ("" = none)
+	UserFuncs   []UserFunc
+	Prefix      map[string]string // plugin -> prefix (nil = default "derive" + Plugin name)
+	GlobalPfx   string            // -prefix value ("" = derive)
+	Flags       []string          // goderive flags
+	Negative    string            // description of the spliced unsupported constituent (C09)
+	RawFiles    map[string]string // extra verbatim files (relative path -> content)
+	PName       string            // package name of p ("" = p); the directory and import path stay .../p
+	OextAlt     bool              // other/ext.T has one more (unexported pointer) field: an edit in a package p reaches only through ext.X
+	NestedGroup int               // 1 + index of the nested prefix group whose plugins are called side by side (0 = none)
+	PrefixRot   int               // rotation of the -pluginprefix pairs on the command line
+	Twin        int               // > 0: a second generated-for package twin/p with p's package name and type names (variant)
 }
 
 // UserFunc is a hand-written function (possibly with a derive-like name).
@@ -219,14 +221,22 @@ var extStructs = map[string][]Field{
 	// package example.com/w/other/p has the same package name as the package under generation
 	"op.G":    {{Name: "A", Ty: Basic("int")}, {Name: "b", Ty: Basic("string")}},
 	"op.User": {{Name: "Name", Ty: Basic("string")}, {Name: "Tags", Ty: Slice(Basic("string"))}},
+	// package msg in the directory msg-go: the last path element is not the package name and ends in a keyword
+	"kgo.M": {{Name: "Topic", Ty: Basic("string")}, {Name: "Key", Ty: Slice(Basic("byte"))}, {Name: "n", Ty: Basic("int")}},
 }
+
+// isExtPkg: the fixed imported packages of a world (as opposed to p and q).
+func isExtPkg(p string) bool { return p == "ext" || p == "oext" || p == "op" || p == "kgo" }
 
 func (w *World) fieldsOf(t *Ty) ([]Field, bool) {
 	if t.K != "named" {
 		return nil, false
 	}
-	if t.Pkg == "ext" || t.Pkg == "oext" || t.Pkg == "op" {
+	if isExtPkg(t.Pkg) {
 		f, ok := extStructs[t.Pkg+"."+t.Name]
+		if ok && w.OextAlt && t.Pkg == "oext" && t.Name == "T" {
+			f = append(append([]Field{}, f...), Field{Name: "p", Ty: Ptr(Basic("int"))})
+		}
 		return f, ok
 	}
 	d := w.decl(t.Name)
@@ -237,7 +247,7 @@ func (w *World) fieldsOf(t *Ty) ([]Field, bool) {
 }
 
 func (w *World) under(t *Ty) *Ty {
-	if t.K == "named" && t.Pkg != "ext" && t.Pkg != "oext" && t.Pkg != "op" {
+	if t.K == "named" && !isExtPkg(t.Pkg) {
 		if d := w.decl(t.Name); d != nil && !d.Struct {
 			return d.Under
 		}
@@ -376,7 +386,7 @@ func (w *World) OrderedBasic(t *Ty) bool {
 // underlying type is not a struct or basic is assignable to/from its
 // unnamed underlying type.
 func (w *World) assignKey(t *Ty) string {
-	if t.K == "named" && t.Pkg != "ext" && t.Pkg != "oext" && t.Pkg != "op" {
+	if t.K == "named" && !isExtPkg(t.Pkg) {
 		if d := w.decl(t.Name); d != nil && !d.Struct && d.Under.K != "basic" {
 			return "~" + d.Under.ID()
 		}
